@@ -234,8 +234,12 @@ OpProps(op) ==
 
 (* why: "" when legal; else "locked", "dead-target" or "args".             *)
 OutcomeChecks(ln, why) ==
-    LET p == ln.res.panic IN
+    LET p == ln.res.panic
+        gen == "gen" \in DOMAIN ln /\ ln.gen
+    IN
     ChkN(OpProps(ln.op), "legal-operation-panicked", why # "" \/ ~p) \o
+    (* C18: a generic call is accepted exactly when the ID-based call it stands for is *)
+    (IF gen THEN << Chk("C18", "generic-call-accepted-iff-its-equivalent-is", (why = "") = ~p) >> ELSE <<>>) \o
     << Chk("C10", "illegal-operation-accepted", why = "" \/ p),
        Chk("C09", "structural-change-accepted-while-locked", why # "locked" \/ p),
        Chk("C05", "dead-target-accepted", why # "dead-target" \/ p) >>
